@@ -764,3 +764,411 @@ impl Scenario for ListenerNewScenario {
         out
     }
 }
+
+// ---------------------------------------------------------------------------------------------
+// C09 — disconnect / shutdown cleanup and exact counters (fault enumeration)
+
+pub struct CleanupScenario {
+    pub minors: Vec<u32>,
+    pub depth: usize,
+    /// which part of the alphabet: 0 = objects/services/calls/events, 1 = channels/listeners/introspection, 2 = everything
+    pub part: u8,
+}
+
+impl CleanupScenario {
+    fn base_msgs(&self, m: &Model, c: Cid) -> Vec<RefMessage> {
+        let minor = m.minor(c);
+        let mut v = Vec::new();
+        let p0 = self.part == 0 || self.part == 2;
+        let p1 = self.part == 1 || self.part == 2;
+        if p0 {
+            if !m.objs.contains_key(&obj_uuid(1)) {
+                v.push(create_object(1, obj_uuid(1)));
+            }
+            for o in m.objs.values() {
+                if o.owner == c {
+                    v.push(destroy_object(2, o.cookie));
+                    if o.svcs.is_empty() {
+                        if minor >= 17 {
+                            v.push(create_service2(3, o.cookie, svc_uuid(1), 1, Some(true)));
+                        } else {
+                            v.push(create_service(3, o.cookie, svc_uuid(1), 1));
+                        }
+                    }
+                }
+            }
+            for (sc, _) in &m.svcs {
+                let owner = m.svc_owner(sc);
+                if owner == Some(c) {
+                    v.push(destroy_service(4, *sc));
+                    v.push(emit_event(*sc, 1, payload_for(minor, 1)));
+                } else {
+                    if !m.calls.values().any(|call| call.caller == c && !call.aborted) && m.calls.len() < 2 {
+                        v.push(call_function(0, *sc, 1, payload_for(minor, 2)));
+                    }
+                    v.push(subscribe_event(Some(5), *sc, 1));
+                    v.push(unsubscribe_event(*sc, 1));
+                    if minor >= 18 {
+                        v.push(subscribe_all_events(Some(6), *sc));
+                        v.push(subscribe_service(7, *sc));
+                    }
+                }
+            }
+            for (t, call) in &m.calls {
+                if m.svc_owner(&call.svc) == Some(c) {
+                    v.push(call_function_reply(*t, 0, payload_for(minor, 3)));
+                }
+                if call.caller == c && !call.aborted && minor >= 16 {
+                    v.push(abort_function_call(call.caller_serial));
+                }
+            }
+        }
+        if p1 {
+            if m.chans.len() < 2 {
+                v.push(create_channel_sender(10));
+                if m.chans.is_empty() {
+                    v.push(create_channel_receiver(11, 1));
+                }
+            }
+            for (ck, ch) in &m.chans {
+                match (ch.sender, ch.receiver) {
+                    (MEnd::Unclaimed, _) => v.push(claim_sender(12, *ck)),
+                    (_, MEnd::Unclaimed) => v.push(claim_receiver(13, *ck, 1)),
+                    _ => {}
+                }
+                if chan_end_owner(ch.sender) == Some(c) {
+                    v.push(send_item(*ck, payload_for(minor, 4)));
+                    v.push(close_channel_end(14, *ck, true));
+                }
+                if chan_end_owner(ch.receiver) == Some(c) {
+                    v.push(add_channel_capacity(*ck, 1));
+                    v.push(close_channel_end(15, *ck, false));
+                }
+            }
+            let mine: Vec<U> = m.listeners.iter().filter(|(_, l)| l.owner == c).map(|(k, _)| *k).collect();
+            if mine.is_empty() && m.listeners.len() < 2 {
+                v.push(create_bus_listener(20));
+            }
+            for l in mine {
+                let lis = &m.listeners[&l];
+                if lis.filters.is_empty() {
+                    v.push(add_filter(l, &all_filters()[0]));
+                    v.push(add_filter(l, &all_filters()[3]));
+                }
+                if lis.scope.is_none() {
+                    v.push(start_listener(21, l, 2));
+                } else {
+                    v.push(stop_listener(22, l));
+                }
+                v.push(destroy_bus_listener(23, l));
+            }
+            if minor >= 17 {
+                let tid = sym::type_id(1);
+                let registered = m.intro.get(&tid).map(|e| e.registered.contains(&c)).unwrap_or(false);
+                if !registered {
+                    v.push(register_introspection(&[tid]));
+                } else {
+                    for (t, qt) in &m.intro_queries {
+                        if *qt == tid && m.intro[&tid].queried.map(|q| q.0) == Some(c) {
+                            v.push(query_introspection_reply(*t, true, vec![3, 9]));
+                            v.push(query_introspection_reply(*t, false, sym::none_value()));
+                        }
+                    }
+                }
+                let pending_mine = m.intro.get(&tid).map(|e| e.pending.iter().any(|(pc, _)| *pc == c)).unwrap_or(false);
+                if !pending_mine {
+                    v.push(query_introspection(30, tid));
+                }
+            }
+        }
+        v
+    }
+}
+
+impl Scenario for CleanupScenario {
+    fn name(&self) -> String {
+        "cleanup".into()
+    }
+    fn params(&self) -> serde_json::Value {
+        json!({"versions": self.minors, "depth": self.depth, "alphabet_part": self.part})
+    }
+    fn prelude(&self) -> Vec<Action> {
+        self.minors.iter().map(|m| connect(*m)).collect()
+    }
+    fn max_depth(&self) -> usize {
+        self.depth
+    }
+    fn final_check_everywhere(&self) -> bool {
+        true
+    }
+    fn final_check(&self, r: &mut Runner, depth: usize) -> Result<(), Viol> {
+        // vary the way the survivors are ended with the history
+        let way = (depth + r.steps) as u8;
+        r.teardown(way)
+    }
+    fn actions(&self, m: &Model, _stale: &Stale, _depth: usize) -> Vec<(Action, bool)> {
+        let mut out = Vec::new();
+        for c in m.live_conns() {
+            let msgs = self.base_msgs(m, c);
+            for (i, mm) in msgs.iter().enumerate() {
+                let picks = if mm.kind == k::QUERY_INTROSPECTION || mm.kind == k::QUERY_INTROSPECTION_REPLY {
+                    m.intro.get(&sym::type_id(1)).map(|e| e.registered.len().max(1)).unwrap_or(1)
+                } else {
+                    1
+                };
+                for pick in 0..picks {
+                    out.push((Action::Send { c, m: mm.clone(), pick }, true));
+                }
+                // the same request, but the sender's task dies while the request is queued
+                out.push((Action::SendThenDropTask { c, m: mm.clone() }, true));
+                // ... or the request is queued behind a kick of its sender (first few only)
+                if i < 3 {
+                    out.push((Action::KickThenSend { c, m: mm.clone() }, true));
+                }
+            }
+            for a in disconnects(m, c, true) {
+                out.push((a, true));
+            }
+        }
+        for c in 0..m.conns.len() {
+            if m.conns[c].state == CState::Zombie {
+                out.push((Action::Kick(c), true));
+            }
+        }
+        out.push((Action::BrokerShutdown, false));
+        out
+    }
+}
+
+// ---------------------------------------------------------------------------------------------
+// C12 — gating of message kinds by negotiated version
+
+/// The messages introduced after 1.14, each in a state in which it would otherwise be served.
+pub struct GatingScenario {
+    pub minor: u32,
+}
+
+impl Scenario for GatingScenario {
+    fn name(&self) -> String {
+        "gating".into()
+    }
+    fn params(&self) -> serde_json::Value {
+        json!({"minor_of_tested_connection": self.minor})
+    }
+    fn prelude(&self) -> Vec<Action> {
+        // c0 = owner/registrant at 1.20, c1 = the connection under test, c2 = old owner (1.14)
+        let x = 1;
+        let mut v = vec![connect(20), connect(self.minor), connect(14)];
+        v.push(send(0, create_object(1, obj_uuid(1))));
+        v.push(send(0, create_service2(2, sym::cid(IdKind::Obj, 0), svc_uuid(1), 1, Some(true))));
+        v.push(send(0, register_introspection(&[sym::type_id(1)])));
+        // the connection under test owns an object (so it can add a service) and has a call pending
+        v.push(send(x, create_object(3, obj_uuid(2))));
+        v.push(send(x, call_function(0, sym::cid(IdKind::Svc, 0), 1, sym::none_value())));
+        // ... and is itself the callee of a call and the target of an introspection query
+        v.push(send(x, create_service(4, sym::cid(IdKind::Obj, 1), svc_uuid(1), 1)));
+        v.push(send(0, call_function(5, sym::cid(IdKind::Svc, 1), 1, sym::none_value())));
+        v
+    }
+    fn max_depth(&self) -> usize {
+        2
+    }
+    fn actions(&self, m: &Model, _stale: &Stale, depth: usize) -> Vec<(Action, bool)> {
+        let x = 1usize;
+        let mut out = Vec::new();
+        if !m.is_live(x) {
+            return out;
+        }
+        let minor = m.minor(x);
+        let svc0 = sym::cid(IdKind::Svc, 0);
+        let obj1 = sym::cid(IdKind::Obj, 1);
+        let expand = depth == 0;
+        let mut msgs = vec![
+            abort_function_call(0),
+            register_introspection(&[sym::type_id(2)]),
+            query_introspection(10, sym::type_id(1)),
+            query_introspection(11, sym::type_id(9)),
+            create_service2(12, obj1, svc_uuid(2), 1, None),
+            query_service_info(13, svc0),
+            subscribe_service(14, svc0),
+            unsubscribe_service(svc0),
+            subscribe_all_events(Some(15), svc0),
+            unsubscribe_all_events(Some(16), svc0),
+            unsubscribe_all_events(None, svc0),
+            call_function2(1, svc0, 2, None, payload_for(minor, 1)),
+            call_function2(1, svc0, 2, Some(7), payload_for(minor, 1)),
+            // never gated: must be served at every version
+            sync(17),
+            call_function(1, svc0, 2, payload_for(minor, 1)),
+            query_service_version(18, svc0),
+        ];
+        // a reply to an introspection query that was (or was not) addressed to x
+        for t in m.intro_queries.keys() {
+            msgs.push(query_introspection_reply(*t, false, sym::none_value()));
+        }
+        msgs.push(query_introspection_reply(sym::BSERIAL_BOGUS, true, vec![3, 1]));
+        for mm in msgs {
+            out.push((send(x, mm), expand));
+        }
+        out
+    }
+}
+
+// ---------------------------------------------------------------------------------------------
+// C11 — arbitrary message sequences from one connection
+
+pub struct AbuseScenario {
+    /// versions: victim V1 (owner, receiver, listener, registrant), victim V2 (caller, sender),
+    /// abuser X, probe P
+    pub minors: [u32; 4],
+    pub depth: usize,
+    /// use the reduced alphabet (fewer argument combinations)
+    pub core_only: bool,
+}
+
+pub const ABUSE_X: Cid = 2;
+pub const ABUSE_P: Cid = 3;
+
+impl AbuseScenario {
+    fn payloads(&self, minor: u32) -> Vec<Vec<u8>> {
+        vec![
+            sym::none_value(),
+            payload_for(minor, 5),
+            vec![0xff, 0xee],                                  // garbage
+            encode_service_info(&crate::model::MInfo { version: 3, type_id: Some(sym::type_id(1)), subscribe_all: Some(true) }),
+            vec![65, 1, 0, 3, 7, 0],                           // near miss of ServiceInfo: version field is a U8
+            refcodec::encode_vec(&refcodec::RefValue::Set(refcodec::KeyType::Uuid, vec![refcodec::RefKey::Uuid(sym::type_id(1))]), refcodec::Epoch::V2),
+        ]
+    }
+
+    /// All messages of all 63 kinds over the pools.
+    pub fn alphabet(&self, m: &Model, stale: &Stale) -> Vec<RefMessage> {
+        use refcodec::message::{enumerate_atoms, KINDS};
+        let minor = m.minor(ABUSE_X);
+        // U pool: one live cookie of each kind (foreign), X's own, stale, bogus, fixed uuids
+        let mut us: Vec<U> = Vec::new();
+        if let Some(o) = m.objs.values().next() {
+            us.push(o.cookie);
+        }
+        if let Some(s) = m.svcs.keys().next() {
+            us.push(*s);
+        }
+        if let Some(c) = m.chans.keys().next() {
+            us.push(*c);
+        }
+        if let Some(l) = m.listeners.keys().next() {
+            us.push(*l);
+        }
+        if !self.core_only {
+            for o in m.objs.values().filter(|o| o.owner == ABUSE_X) {
+                us.push(o.cookie);
+            }
+            if let Some(s) = stale.svc {
+                us.push(s);
+            }
+            us.push(obj_uuid(2));
+            us.push(sym::type_id(1));
+        }
+        us.push(bogus(IdKind::Obj));
+        us.push(obj_uuid(1));
+        us.push(svc_uuid(1));
+        us.sort();
+        us.dedup();
+        let mut vs: Vec<u32> = vec![0, 1];
+        for t in m.calls.keys().chain(m.intro_queries.keys()) {
+            vs.push(*t);
+        }
+        if !self.core_only {
+            vs.push(u32::MAX);
+            vs.push(sym::BSERIAL_BOGUS);
+        }
+        vs.sort();
+        vs.dedup();
+        let mut out = Vec::new();
+        for sp in KINDS.iter() {
+            if sp.kind == k::SHUTDOWN {
+                continue; // a clean disconnect, covered elsewhere
+            }
+            // limit the blow-up of kinds with many UUID / integer fields
+            let n_u = sp.fields.iter().filter(|f| matches!(f, refcodec::message::F::U)).count();
+            let n_v = sp.fields.iter().filter(|f| matches!(f, refcodec::message::F::V)).count();
+            let us_k: Vec<U> = if n_u >= 3 || sp.kind == k::EMIT_BUS_EVENT { us.iter().copied().take(2).collect() } else if n_u == 2 { us.iter().copied().take(5).collect() } else { us.clone() };
+            let vs_k: Vec<u32> = if n_v >= 3 { vs.iter().copied().take(2).collect() } else { vs.clone() };
+            let atoms = enumerate_atoms(sp.fields, &vs_k, &us_k);
+            let pls: Vec<Option<Vec<u8>>> = if sp.has_value {
+                let p = self.payloads(minor);
+                let p = if self.core_only && !matches!(sp.kind, k::CREATE_SERVICE2 | k::REGISTER_INTROSPECTION) { p[..3].to_vec() } else { p };
+                p.into_iter().map(Some).collect()
+            } else {
+                vec![None]
+            };
+            for a in atoms {
+                for p in &pls {
+                    out.push(RefMessage { kind: sp.kind, value: p.clone(), atoms: a.clone() });
+                }
+            }
+        }
+        out
+    }
+}
+
+impl Scenario for AbuseScenario {
+    fn name(&self) -> String {
+        "abuse".into()
+    }
+    fn params(&self) -> serde_json::Value {
+        json!({"versions_victim1_victim2_abuser_probe": self.minors, "depth": self.depth, "core_alphabet": self.core_only})
+    }
+    fn prelude(&self) -> Vec<Action> {
+        let (v1, v2) = (0usize, 1usize);
+        let mut v: Vec<Action> = self.minors.iter().map(|m| connect(*m)).collect();
+        v.push(send(v1, create_object(1, obj_uuid(1))));
+        v.push(send(v1, create_service(2, sym::cid(IdKind::Obj, 0), svc_uuid(1), 1)));
+        v.push(send(v2, call_function(0, sym::cid(IdKind::Svc, 0), 1, sym::none_value())));
+        v.push(send(v2, subscribe_event(Some(3), sym::cid(IdKind::Svc, 0), 1)));
+        v.push(send(v2, create_channel_sender(4)));
+        v.push(send(v1, claim_receiver(5, sym::cid(IdKind::Chan, 0), 2)));
+        v.push(send(v1, create_bus_listener(6)));
+        v.push(send(v1, add_filter(sym::cid(IdKind::Lis, 0), &all_filters()[0])));
+        v.push(send(v1, add_filter(sym::cid(IdKind::Lis, 0), &all_filters()[3])));
+        v.push(send(v1, start_listener(7, sym::cid(IdKind::Lis, 0), 2)));
+        if self.minors[0] >= 17 {
+            v.push(send(v1, register_introspection(&[sym::type_id(1)])));
+        }
+        v
+    }
+    fn max_depth(&self) -> usize {
+        self.depth
+    }
+    fn configure(&self, r: &mut Runner) {
+        // garbage payloads are not "well-formed for the sender's version": the no-1.20-encoding
+        // monitor only speaks about well-formed payloads
+        r.monitors.payload_monitor = false;
+    }
+    fn final_check_everywhere(&self) -> bool {
+        true
+    }
+    fn final_check(&self, r: &mut Runner, _depth: usize) -> Result<(), Viol> {
+        // the well-behaved probe connection is still served correctly
+        if r.model.is_live(ABUSE_P) {
+            r.apply(&send(ABUSE_P, sync(900)))?;
+            r.apply(&send(ABUSE_P, create_object(901, obj_uuid(9))))?;
+            let oc = r.model.objs.get(&obj_uuid(9)).map(|o| o.cookie);
+            match oc {
+                Some(oc) => r.apply(&send(ABUSE_P, destroy_object(902, oc)))?,
+                None => return Err(Viol { clause: "probe-not-served".into(), detail: "CreateObject of the probe connection did not create an object".into(), step: r.steps }),
+            }
+        }
+        Ok(())
+    }
+    fn actions(&self, m: &Model, stale: &Stale, _depth: usize) -> Vec<(Action, bool)> {
+        let mut out = Vec::new();
+        if m.is_live(ABUSE_X) {
+            for mm in self.alphabet(m, stale) {
+                out.push((send(ABUSE_X, mm), true));
+            }
+            out.push((Action::DropTransport(ABUSE_X), true));
+        }
+        out
+    }
+}
